@@ -55,7 +55,8 @@ func positionStartGPOS(buffer *Buffer) {
 	}
 }
 
-func propagateAttachmentOffsets(pos []GlyphPosition, i int, direction Direction) {
+// [advances] holds the sums of the advances of the glyphs before each index (see [advancesBefore])
+func propagateAttachmentOffsets(pos []GlyphPosition, i int, direction Direction, advances [][2]Position) {
 	/* Adjusts offsets of attached glyphs (both cursive and mark) to accumulate
 	 * offset of glyph they are attached to. */
 	if pos[i].attachChain == 0 {
@@ -105,16 +106,16 @@ func propagateAttachmentOffsets(pos []GlyphPosition, i int, direction Direction)
 			if j >= i {
 				continue
 			}
+			// the advances of the glyphs between the base and the mark, from the sums computed once
+			// (summing them for each mark was quadratic for a base with many marks)
 			if direction.isForward() {
-				for _, p := range pos[j:i] {
-					pos[i].XOffset -= p.XAdvance
-					pos[i].YOffset -= p.YAdvance
-				}
+				// pos[j:i]
+				pos[i].XOffset -= advances[i][0] - advances[j][0]
+				pos[i].YOffset -= advances[i][1] - advances[j][1]
 			} else {
-				for _, p := range pos[j+1 : i+1] {
-					pos[i].XOffset += p.XAdvance
-					pos[i].YOffset += p.YAdvance
-				}
+				// pos[j+1 : i+1]
+				pos[i].XOffset += advances[i+1][0] - advances[j+1][0]
+				pos[i].YOffset += advances[i+1][1] - advances[j+1][1]
 			}
 		}
 	}
@@ -131,10 +132,20 @@ func positionFinishOffsetsGPOS(buffer *Buffer) {
 			fmt.Println("POSITION - handling attachments")
 		}
 
+		advances := advancesBefore(pos)
 		for i := range pos {
-			propagateAttachmentOffsets(pos, i, direction)
+			propagateAttachmentOffsets(pos, i, direction, advances)
 		}
 	}
+}
+
+// advancesBefore returns, for each index i in [0, len(pos)], the sum of the (X and Y) advances of pos[:i]
+func advancesBefore(pos []GlyphPosition) [][2]Position {
+	out := make([][2]Position, len(pos)+1)
+	for i, p := range pos {
+		out[i+1] = [2]Position{out[i][0] + p.XAdvance, out[i][1] + p.YAdvance}
+	}
+	return out
 }
 
 func applyRecurseGPOS(c *otApplyContext, lookupIndex uint16) bool {
